@@ -1,4 +1,4 @@
-import SqiProofs.CurveDblmul
+import SqiProofs.CurveJacSeq
 
 /-! # C08 — x-only Montgomery curve arithmetic implements the elliptic-curve group law
 
@@ -250,6 +250,40 @@ theorem ADD_correct_generic {a : F} (AC : EcCurve F) (hA : AC.A = a)
 
 /-- non-vacuity: `jac_init` is a canonical `∞`, and `(2·9, 4·27, 3)` a canonical representative of `P₀ = (2,4)` -/
 example : IsJacC (0 : (mont (3 / 2 : ℚ)).Point) (jac_init : JacPoint ℚ) := jac_init_isJacC
+
+/-! ### whole Jacobian programs (register programs of ADD / DBL / jac_neg; DBLMUL, DBLMUL2, DBLMUL_generic) -/
+
+/-- **Every program.** Registers in canonical form, a program that never doubles a point of order 2 (`progGood`: for
+`ADD` of equal points and for `DBL`, the argument is `∞` or has `2A ≠ ∞` — the known finding
+"Jacobian:ADD-after-DBL-of-2-torsion" is exactly the complement): the C-shaped run `jacRun` (over the generated `ADD`,
+`DBL`, `jac_neg`) and the group-law run either both reject the program or produce corresponding register files, all
+registers again canonical. One induction over the program, no bound on its length. -/
+theorem jacRun_whole_program {a : F} (h2 : (2 : F) ≠ 0) (curve : EcCurve F) (hA : curve.A = a)
+    (prog : List (Nat × Nat × Nat)) (l : List ((mont a).Point × JacPoint F)) (hl : RegsOk l)
+    (hg : progGood (l.map Prod.fst) prog) :
+    (jacRun curve (l.map Prod.snd) prog = none ∧ ptRun (l.map Prod.fst) prog = none) ∨
+    ∃ l', RegsOk l' ∧ jacRun curve (l.map Prod.snd) prog = some (l'.map Prod.snd) ∧
+      ptRun (l.map Prod.fst) prog = some (l'.map Prod.fst) :=
+  jacRun_correct h2 curve hA prog l hl hg
+
+theorem jacSeq_value {a : F} (h2 : (2 : F) ≠ 0) (curve : EcCurve F) (hA : curve.A = a)
+    (prog : List (Nat × Nat × Nat)) (l : List ((mont a).Point × JacPoint F)) (hl : RegsOk l)
+    (hg : progGood (l.map Prod.fst) prog) (J : JacPoint F) (hJ : jacSeq curve (l.map Prod.snd) prog = some J) :
+    ∃ ps A, ptRun (l.map Prod.fst) prog = some ps ∧ ps.getLast? = some A ∧ IsJacC A J :=
+  jacSeq_correct h2 curve hA prog l hl hg J hJ
+
+/-- `DBLMUL` (`nbits = 64`), `DBLMUL2` (128), `DBLMUL_generic` (`64·size`): the result is `[k]P + [l]Q` as a point in
+canonical form, for any `nbits`, provided no intermediate doubling hits a point of order 2 (`dblmulGood`, a condition
+on the group elements `[k_prefix]P + [l_prefix]Q`). Partial sums may pass through `∞` (e.g. `Q = -P`). -/
+theorem jacDBLMUL_correct {a : F} (h2 : (2 : F) ≠ 0) (curve : EcCurve F) (hA : curve.A = a) (nbits k l : Nat)
+    (P Q : (mont a).Point) (JP JQ : JacPoint F) (hP : IsJacC P JP) (hQ : IsJacC Q JQ) (hadd : AddGood P Q)
+    (hg : dblmulGood P Q 0 ((bitsMSB nbits k).zip (bitsMSB nbits l))) :
+    IsJacC ((k % 2 ^ nbits) • P + (l % 2 ^ nbits) • Q) (jacDBLMUL nbits k l JP JQ curve) :=
+  jacDBLMUL_ok h2 curve hA nbits k l P Q JP JQ hP hQ hadd hg
+
+/-- non-vacuity: the program `[NEG 0; ADD 0 1]` (`P + (-P)`) on `P = ∞` is good -/
+example : progGood ([0] : List (mont (3 / 2 : ℚ)).Point) [(3, 0, 0), (1, 0, 1)] := by
+  simp [progGood, opGood, ptStep, AddGood]
 
 /-- `ec_j_inv` returns Mathlib's `WeierstrassCurve.j` of the Montgomery curve, for every `(A : C)` with
 `A² ≠ 4C²`. -/
